@@ -97,6 +97,7 @@ package contentstream
 //@   property C02, C06
 //@   requires pinv(p) && p.pos < len(p.data)
 //@   ensures pinv(p) && psame(p, old(p)) && p.pos >= old(p.pos) && (!err ==> p.pos > old(p.pos))
+//@   ensures closing_bracket_is_consumed: !err ==> p.pos == len(p.data) || p.data[p.pos-1] == '>'
 //@   loop 0:
 //@     invariant pinv(p) && psame(p, old(p)) && p.pos > old(p.pos)
 //@     step white_space_ignored: pdfWS(p.data[prev(p.pos)]) ==> p.pos == prev(p.pos) + 1 && len(result) == prev(len(result))
